@@ -103,6 +103,7 @@ fn gen_generate_valid_inner_value_with_validators<T: ToTokens>(
         return Err(syn::Error::new(span, msg));
     }
 
+    let requires_finite = validator_kinds.contains(&FloatValidatorKind::Finite);
     let basic_value_kind = compute_basic_value_kind(&validator_kinds);
     let basic_value = generate_basic_value(inner_type, basic_value_kind);
     let boundaries = compute_boundaries(validators);
@@ -111,6 +112,7 @@ fn gen_generate_valid_inner_value_with_validators<T: ToTokens>(
         inner_type,
         basic_value,
         boundaries,
+        requires_finite,
     ))
 }
 
@@ -118,108 +120,90 @@ fn normalize_basic_value_for_boundaries(
     inner_type: &FloatInnerType,
     basic_value: TokenStream,
     boundaries: Boundaries,
+    requires_finite: bool,
 ) -> TokenStream {
-    match (boundaries.lower, boundaries.upper) {
+    // A candidate value `x` is computed from the boundaries first.
+    let candidate = match (&boundaries.lower, &boundaries.upper) {
         (Some(lower), Some(upper)) => {
             // In this case we don't use `basic_value` we generate a new value that lays in between
-            // 0.0 and 1.0 and then scale it to the range of the boundaries.
+            // 0.0 and 1.0 and then interpolate between the boundaries. The form `a * (1 - t) + b * t`
+            // does not overflow, unlike `a + t * (b - a)`.
             let arbitrary_in_01_range = gen_in_01_range(inner_type);
-
             let lower_value = &lower.value;
             let upper_value = &upper.value;
-            let adjust_x_lower = gen_adjust_x_for_lower_boundary(inner_type, &lower);
-            let adjust_x_upper = gen_adjust_x_for_upper_boundary(inner_type, &upper);
             quote! {
                 let from0to1 = #arbitrary_in_01_range;
-
-                // Scale range [0; 1] to the range of the boundaries
-                let range = (#upper_value - #lower_value).abs();
-                let x = #lower_value + from0to1 * range;
-
-                // Make sure we satisfy the exclusive boundaries
-                let x = #adjust_x_lower;
-                let x = #adjust_x_upper;
-                x
+                (#lower_value) * (1.0 - from0to1) + (#upper_value) * from0to1
             }
         }
         (Some(lower), None) => {
             let lower_value = &lower.value;
-            let adjust_x = gen_adjust_x_for_lower_boundary(inner_type, &lower);
             quote! {
-                // Compute initial basic value
                 let basic_value = #basic_value;
-                let positive_basic_value = basic_value.abs();
-                let x = positive_basic_value + #lower_value;
-                #adjust_x
+                basic_value.abs() + (#lower_value)
             }
         }
         (None, Some(upper)) => {
             let upper_value = &upper.value;
-            let adjust_x = gen_adjust_x_for_upper_boundary(inner_type, &upper);
             quote! {
-                // Compute initial basic value
                 let basic_value = #basic_value;
-                let negative_basic_value = -basic_value.abs();
-                let x = negative_basic_value + #upper_value;
-                #adjust_x
+                -basic_value.abs() + (#upper_value)
             }
         }
-        (None, None) => basic_value,
-    }
-}
+        (None, None) => return basic_value,
+    };
 
-fn gen_adjust_x_for_upper_boundary(
-    float_type: &FloatInnerType,
-    upper_boundary: &Boundary,
-) -> TokenStream {
-    if upper_boundary.is_inclusive {
-        quote! { x }
+    // Then `x` is clamped into the closed interval [lowest; highest] of valid values.
+    // For an exclusive boundary that is the neighbouring float, so the result is valid regardless of
+    // the magnitude of the boundary, rounding errors or an overflow in the computation above.
+    let unbounded_lowest = if requires_finite {
+        quote!(#inner_type::MIN)
     } else {
-        let upper_value = &upper_boundary.value;
-        let correction_delta = correction_delta_for_float_type(float_type);
-        quote! {
-            if x >= #upper_value {
-                x - #correction_delta
-            } else {
-                x
-            }
-        }
-    }
-}
-
-fn gen_adjust_x_for_lower_boundary(
-    float_type: &FloatInnerType,
-    lower_boundary: &Boundary,
-) -> TokenStream {
-    if lower_boundary.is_inclusive {
-        quote! { x }
+        quote!(#inner_type::NEG_INFINITY)
+    };
+    let unbounded_highest = if requires_finite {
+        quote!(#inner_type::MAX)
     } else {
-        let lower_value = &lower_boundary.value;
-        let correction_delta = correction_delta_for_float_type(float_type);
-        quote! {
-            if x <= #lower_value {
-                // Since there is no upper boundary, we are free to add any positive value here
-                // to adjust so we can satisfy the exclusive lower boundary.
-                x + #correction_delta
-            } else {
-                x
-            }
-        }
-    }
-}
+        quote!(#inner_type::INFINITY)
+    };
+    let lowest = match &boundaries.lower {
+        Some(Boundary { value, is_inclusive: true }) => quote!(#value),
+        Some(Boundary { value, is_inclusive: false }) => quote!(next_up(#value)),
+        None => unbounded_lowest,
+    };
+    let highest = match &boundaries.upper {
+        Some(Boundary { value, is_inclusive: true }) => quote!(#value),
+        Some(Boundary { value, is_inclusive: false }) => quote!(next_down(#value)),
+        None => unbounded_highest,
+    };
 
-/// A tiny value that is used to correct the value to satisfy the exclusive boundaries if
-/// necessary.
-/// For example, if the constraint is `greater = 0.0`, then and we obtain exactly `0.0` when
-/// generating a pseudo-random value, then we need to add a tiny value to it to make it
-/// satisfy `x > 0.0` check.
-///
-/// Unfortunately things like `f32::EPSILON` or `f64::EPSILON` are not suitable for this purpose.
-/// The constants are found experimentally.
-fn correction_delta_for_float_type(float_type: &FloatInnerType) -> TokenStream {
-    match float_type {
-        FloatInnerType::F32 => quote!(0.000_002),
-        FloatInnerType::F64 => quote!(0.000_000_000_000_004),
+    quote! {
+        // The least float greater than `v` and the greatest float less than `v`.
+        #[allow(unused_variables)]
+        let next_up = |v: #inner_type| -> #inner_type {
+            if v == 0.0 {
+                #inner_type::from_bits(1)
+            } else if v > 0.0 {
+                #inner_type::from_bits(v.to_bits() + 1)
+            } else {
+                #inner_type::from_bits(v.to_bits() - 1)
+            }
+        };
+        #[allow(unused_variables)]
+        let next_down = |v: #inner_type| -> #inner_type { -next_up(-v) };
+
+        let lowest: #inner_type = #lowest;
+        let highest: #inner_type = #highest;
+        let x: #inner_type = { #candidate };
+
+        // NOTE: `!(x >= lowest)` is also true for NaN (e.g. the result of `inf - inf`).
+        if !(x >= lowest) {
+            lowest
+        } else if x > highest {
+            highest
+        } else {
+            x
+        }
     }
 }
 
